@@ -4,6 +4,8 @@ CONSTANTS
   HasBack = @@HASBACK@@
   Mode = "@@MODE@@"
   SyncFill = @@SYNC@@
+  FaultProc = "@@FAULTPROC@@"
+  Invalidate = @@INVAL@@
   Emit = @@EMIT@@
 INIT Init
 NEXT Next
